@@ -55,8 +55,8 @@ theorem ch_binding (σ : Nat → Exp) :
          ⟨"tket.quantum.CZ", [.val (σ 0), .val (σ 1)]⟩,
          ⟨"tket.quantum.Ry", [.val (σ 1), .rot e₂]⟩] ∧
       e₁.halfturns? (1 : ℚ) = some (-1 / 4) ∧ e₂.halfturns? (1 : ℚ) = some (1 / 4) := by
-  refine ⟨.divN (.neg .pi) 4, .divN .pi 4, rfl, ?_, ?_⟩ <;>
-    simp [Exp.halfturns?]
+  -- the two angle expressions are whatever the source writes; only their values are specified
+  refine ⟨_, _, rfl, ?_, ?_⟩ <;> norm_num [Exp.halfturns?, Exp.subst]
 
 /-- **C20 (`zz_max`)**: `zz_max(q1, q2)` applies one `ZZPhase(q1, q2, ·)` whose float operand is
     `float` of the angle of ½ half turn, i.e. π/2 radians. -/
@@ -65,8 +65,8 @@ theorem zz_max_binding (σ : Nat → Exp) :
       emit Gen.table fuel "qsystem" "zz_max" (actuals 2 σ) = some
         [⟨"tket.qsystem.ZZPhase", [.val (σ 0), .val (σ 1), .val (.toFloat e)]⟩] ∧
       e.halfturns? (1 : ℚ) = some (1 / 2) := by
-  refine ⟨.divN .pi 2, rfl, ?_⟩
-  simp [Exp.halfturns?]
+  refine ⟨_, rfl, ?_⟩
+  norm_num [Exp.halfturns?, Exp.subst]
 
 /-- **C20 (coverage, spec → table)**: every function the specification documents exists in the source. -/
 theorem coverage_spec_to_table :
